@@ -25,7 +25,11 @@ import (
 // and leaves no transaction open / no connection checked out.
 //
 // Dimensions varied by the "fault" suite (see c05Scenario):
-//   op     10 write operations over generated record graphs (c05Ops)
+//   op     10 write operations over generated record graphs of the relation family (c05Ops) + 12 over the C05S
+//          family (c05SOps, c05_sfam.go): every association upsert kind with its own conflict clause (belongs-to and
+//          many2many elements DO NOTHING, has-one / has-many / polymorphic DO UPDATE, join rows), generated and
+//          application keys (query path with RETURNING vs exec path), FullSaveAssociations on/off, association
+//          values that exist already, user ON CONFLICT clauses, Update / Delete with RETURNING
 //   where  the handle the operation runs on: plain / ctx-bound / TranslateError with a wrapping translator /
 //          PrepareStmt / inside a user transaction (Begin … Commit|Rollback) / inside a Transaction block /
 //          SkipDefaultTransaction (premise "default settings" does not hold: only "error reported" and
@@ -35,7 +39,12 @@ import (
 //          the failure of the following statement / of the COMMIT: context.Canceled or sql.ErrTxDone)
 //   err    the error value (c05ErrAlphabet): generic, well-known sentinels that code may special-case, wrapped
 //          sentinels, driver-specific values, an error with an empty message
-//   at     every driver-call index (BEGIN, every statement, PREPARE, COMMIT)
+//   at     every driver-call index (BEGIN, every statement, PREPARE, COMMIT) and every later STAGE of a statement
+//          (c05_stage.go): Rows.Next per row incl. the call after the last row (seen by gorm only in rows.Err()),
+//          Rows.Close, Result.RowsAffected, Result.LastInsertId; "inject-post" = the call takes effect, then fails
+//   real   genuine failures raised by SQLite while a statement is stepped: mech "trigger" (a RAISE(ABORT) trigger on
+//          every table – association and join tables included – refuses the n-th inserted / updated / deleted row),
+//          mech "poison" (the n-th record of the graph carries a value refused by a CHECK / NOT NULL constraint)
 //
 // Oracle (only what the property text states):
 //   * an injected failure of BEGIN / a statement / COMMIT must surface in the returned error (text of the
@@ -467,6 +476,12 @@ func c05RunOne(w *c05World, sc c05Scenario, dump0, applied map[string][]string) 
 				if ev.Kind == "rows_next" && ne.Err == io.EOF && sc.Mech != "cancel" {
 					return nil // io.EOF from Next IS the end of the rows: nothing failed
 				}
+				if ev.Kind == "begin" && ne.Err == gorm.ErrInvalidTransaction && sc.Mech != "cancel" {
+					// see c05ErrsFor: gorm's own "already inside a transaction" sentinel is not a driver failure (the
+					// call at this index can be a BEGIN although the probe's label was a statement: PrepareStmt
+					// worlds prepare less on later runs)
+					return nil
+				}
 				o.Hit = true
 				o.FaultEv = *ev
 				if sc.Mech == "cancel" {
@@ -722,7 +737,7 @@ func c05TrialsFor(ev Event, rng *rand.Rand, tier string) []c05Trial {
 func c05FaultSuite(r *Result, rng *rand.Rand, tier string) {
 	graphs := 6
 	if tier == "thorough" {
-		graphs = 70
+		graphs = 45
 	} else if tier == "search" {
 		graphs = 10
 	}
